@@ -358,45 +358,24 @@ def check(src, rep):
         if fn is None:
             raise Undecided(f"anchor vanished: {q}")
     # ---- message accessors
-    from sa.accsem import AccSem, World, run_all, worlds
-    F, H = M.classes.get(("hdlc", "HdlcFrame")), M.classes.get(("hdlc", "HdlcFrameHeader"))
-    if F is None or H is None:
-        raise Undecided("anchor vanished: hdlc.HdlcFrame / HdlcFrameHeader")
-    hdr_fields = [a for a, t in F.field_types.items() if t == ("hdlc", "HdlcFrameHeader")]
-    back = [a for a, t in H.field_types.items() if t == ("hdlc", "HdlcFrame")]
-    lenfn = F.methods.get("__len__")
-    store = None
-    if lenfn:
-        for n_ in ast.walk(lenfn.node):
-            if isinstance(n_, ast.Attribute) and isinstance(n_.value, ast.Name) and n_.value.id == "self":
-                store = n_.attr
-    cp_field = None
-    upd = H.methods.get("update")
-    if upd:
-        for n_ in ast.walk(upd.node):
-            if isinstance(n_, ast.Assign) and isinstance(n_.targets[0], ast.Attribute) and isinstance(n_.value, ast.Call) and isinstance(n_.value.func, ast.Attribute) \
-                    and isinstance(n_.value.func.value, ast.Name) and n_.value.func.value.id == "self" and n_.value.func.attr in H.methods and not n_.value.args:
-                cp_field = n_.targets[0].attr
-    if not (len(hdr_fields) == 1 and len(back) == 1 and store and cp_field):
-        raise Undecided("cannot bind the HDLC frame/header roles for the accessor worlds")
-    A = AccSem(M, ("hdlc", "HdlcFrame"), ("hdlc", "HdlcFrameHeader"), {"header": hdr_fields[0], "frame": back[0]}, store, cp_field, keep={"destination_address", "source_address", "is_good_ffc"})
-    nw = 0
+    from sa.hdlcworlds import accessor_outcomes
+    F = M.classes.get(("hdlc", "HdlcFrame"))
+    if F is None:
+        raise Undecided("anchor vanished: hdlc.HdlcFrame")
+    acc_names = []
     for name in ("is_valid", "payload", "as_bytes", "message_type"):
-        if name not in F.methods and M.find_method(("hdlc", "HdlcFrame"), name) is None:
+        if M.find_method(("hdlc", "HdlcFrame"), name) is None:
             raise Undecided(f"anchor vanished: HdlcFrame.{name}")
         n_entry += 1
-        if name not in F.methods:
-            continue
-        for n, c in worlds() + [(n, None) for n in (10, 12)]:
-            for good in (True, False):
-                w = World(n, c, {("frame", "is_good_ffc"): good})
-                nw += 1
-                for r in run_all(A, ("hdlc", "HdlcFrame"), name, w):
-                    if r[0] == "raise":
-                        report(True, r[1] if r[1] != "explicit" else "Exception", "accessor", f"hdlc.HdlcFrame.{name}", F.methods[name].node.lineno,
-                               f"for a frame of {n} octet(s) with control position {c} the accessor raises", f"hdlc.HdlcFrame.{name}")
-                    elif r[0] == "undef":
-                        raise Undecided(f"HdlcFrame.{name} outside the frame worlds: {r[1]}")
+        if name in F.methods:
+            acc_names.append(name)
+    ao = accessor_outcomes(M, tuple(acc_names))
+    if ao[0] == "undecided":
+        raise Undecided(f"HdlcFrame accessors outside the frame worlds: {ao[1]}")
+    nw = ao[1] if ao[0] == "ok" else 0
+    if ao[0] == "raise":
+        fnr = M.find_method(("hdlc", "HdlcFrame"), ao[1])
+        report(True, ao[2], "accessor", f"hdlc.HdlcFrame.{ao[1]}", fnr.node.lineno if fnr else 1, f"for {ao[3]} the accessor raises", f"hdlc.HdlcFrame.{ao[1]}")
     rep.count("frame_worlds", nw)
     for name in ("is_valid", "payload", "as_bytes", "message_type"):
         q = f"dlde.DataReadout.{name}"
